@@ -13,10 +13,12 @@ import (
 	"errors"
 	"fmt"
 	"os"
+	"runtime"
 	"sort"
 	"strconv"
 	"strings"
 	"sync"
+	"sync/atomic"
 	"testing"
 	"testing/synctest"
 	"time"
@@ -358,6 +360,29 @@ func runSendBatch(s sbScript, variant int, compress bool) sbResult {
 	return out
 }
 
+// sbSlowResult is a Put whose result channel is handed out slowly to the region client's delivering goroutine: the result
+// reaches the call a moment after the results of its neighbours in the same multi response.
+type sbSlowResult struct {
+	*hrpc.Mutate
+	delay time.Duration
+}
+
+func (p *sbSlowResult) ResultChan() chan hrpc.RPCResult {
+	pcs := make([]uintptr, 16)
+	frames := runtime.CallersFrames(pcs[:runtime.Callers(2, pcs)])
+	for {
+		f, more := frames.Next()
+		if strings.Contains(f.Function, "gohbase/region.") && strings.Contains(f.Function, "eturnResult") {
+			time.Sleep(p.delay)
+			break
+		}
+		if !more {
+			break
+		}
+	}
+	return p.Mutate.ResultChan()
+}
+
 func multiRows(req *verifsim.Request) []string {
 	var rows []string
 	mr, ok := req.Param.(*pb.MultiRequest)
@@ -584,6 +609,69 @@ func TestVerifSendBatch(t *testing.T) {
 			for row, n := range execs {
 				if n > 1 {
 					rep.bad("batch-call-executed-twice", "%s: row %s was executed %d times", name, row, n)
+				}
+			}
+		}
+	}
+	// ---- one action of a multi is answered "server stopping" (a connection-level outcome for that call) while the results
+	// of the other actions of the same multi are still being handed to their calls, one by one, by the connection's reader:
+	// SendBatch has to WAIT for them - a call whose success is on its way is not sent again
+	for _, pos := range []int{0, 1} {
+		for rep2 := 0; rep2 < 2; rep2++ {
+			name := fmt.Sprintf("server-stopping-for-action-%d-while-the-other-results-are-on-their-way/%d", pos, rep2)
+			execs := map[string]int{}
+			var kinds []string
+			verifsim.Bubble(t, func(t *testing.T) {
+				tr := &verifsim.Trace{}
+				cl := verifsim.NewCluster(tr)
+				cl.AddServer("ms:1")
+				cl.AddServer("s1")
+				cl.CreateTable("t", nil, []string{"s1"})
+				c := newSimClient(cl, RpcQueueSize(10), FlushInterval(time.Millisecond))
+				g, _ := hrpc.NewGet(context.Background(), []byte("t"), []byte("a0"))
+				c.Get(g)
+				synctest.Wait()
+				var once atomic.Bool
+				stopRow := fmt.Sprintf("r%d", pos)
+				cl.ActionHook = func(rs *verifsim.RS, r *verifsim.Region, op string, row []byte) string {
+					if string(row) == stopRow && once.CompareAndSwap(false, true) {
+						return verifsim.ExcStopped
+					}
+					return ""
+				}
+				vals := map[string]map[string][]byte{"f": {"q": []byte("v")}}
+				var batch []hrpc.Call
+				for i := 0; i < 3; i++ {
+					p, _ := hrpc.NewPut(context.Background(), []byte("t"), []byte(fmt.Sprintf("r%d", i)), vals)
+					if i != pos { // its result reaches the call a little later than its neighbours'
+						batch = append(batch, &sbSlowResult{Mutate: p, delay: time.Duration(1+rep2*3) * time.Millisecond})
+					} else {
+						batch = append(batch, p)
+					}
+				}
+				res, _ := c.SendBatch(context.Background(), batch)
+				synctest.Wait()
+				for _, r := range res {
+					kinds = append(kinds, sbKind(r))
+				}
+				cl.Lock()
+				for _, e := range cl.Execs {
+					if strings.HasPrefix(e.Row, "r") {
+						execs[e.Row]++
+					}
+				}
+				cl.Unlock()
+				c.Close()
+				time.Sleep(time.Minute)
+				synctest.Wait()
+			})
+			ran++
+			if fmt.Sprint(kinds) != "[ok ok ok]" {
+				rep.bad("batch-results-differ", "%s: SendBatch returned %v; the stopping server's call is retried elsewhere, every call succeeds", name, kinds)
+			}
+			for row, n := range execs {
+				if n > 1 {
+					rep.bad("batch-call-executed-twice", "%s: row %s was executed %d times (its success had been received)", name, row, n)
 				}
 			}
 		}
